@@ -53,6 +53,21 @@ pub fn scale(b: &Building, c: f32) -> Building {
     o
 }
 
+/// monotone map of every non-zero magnitude v to 0.01 + v / div (sign kept): order, equalities and zeros are
+/// preserved, differences shrink by `div`, and every value stays in the property's domain (>= 0.01 kWh).
+/// Makes a building small enough for an absolute threshold in the code to bite.
+pub fn tiny(b: &Building, div: f32) -> Building {
+    let m = |v: &mut f32| {
+        if *v != 0.0 {
+            *v = v.signum() * (0.01 + v.abs() / div);
+        }
+    };
+    let mut o = b.clone();
+    o.lines.iter_mut().flat_map(|l| l.vals.iter_mut()).for_each(m);
+    o.needs.iter_mut().flat_map(|n| n.vals.iter_mut()).for_each(m);
+    o
+}
+
 /// smallest and largest non-zero magnitude among all values
 pub fn magnitude_range(b: &Building) -> Option<(f32, f32)> {
     let mut lo = f32::INFINITY;
